@@ -83,7 +83,14 @@ theorem microDet_ok {fl cfg s p s' p'} (hs : microDet fl cfg s p = some (s', p')
     simp only [microDet] at hs
     split at hs
     · cases hs
-    · exact ⟨[], Or.inl rfl, (recvStep_ok hs).retarget _ rfl rfl rfl rfl⟩
+    · split at hs
+      · rename_i hr
+        cases hs
+        exact ⟨[], Or.inl rfl, (recvStep_ok hr).retarget _ rfl rfl rfl rfl⟩
+      · split at hs
+        · cases hs
+          exact ⟨[], Or.inl rfl, StepOk.ofSame (mbFlush_ok fl s).1 (mbFlush_ok fl s).2 rfl rfl rfl rfl⟩
+        · cases hs
   | rvSend t v =>
     simp only [microDet] at hs
     refine ⟨[], Or.inl rfl, ?_⟩
@@ -170,12 +177,20 @@ theorem microSpur_ok {fl cfg s p s' p'} (hs : (s', p') ∈ microSpur fl cfg s p)
       · simp at hs
     | _ => simp [microSpur] at hs
   | bsend t f h sent rest q =>
-    simp only [microSpur] at hs
-    split at hs
-    · rw [Option.mem_toList] at hs
-      have h1 := (sendStep_ok hs).retarget (.bsend t f h sent rest q) rfl rfl rfl rfl
-      exact h1.afterSame (by upd)
-    · simp at hs
+    simp only [microSpur, mem_append] at hs
+    rcases hs with hs | hs
+    · split at hs
+      · rw [Option.mem_toList] at hs
+        have h1 := (sendStep_ok hs).retarget (.bsend t f h sent rest q) rfl rfl rfl rfl
+        exact h1.afterSame (by upd)
+      · simp at hs
+    · split at hs
+      · simp only [mem_singleton] at hs
+        have e1 : s' = (failSend fl s f .closed sent rest).1 := by rw [← hs]
+        have e2 : p' = (failSend fl s f .closed sent rest).2 := by rw [← hs]
+        subst e1 e2
+        exact failSend_ok ..
+      · simp at hs
   | brecv t f h n got =>
     simp only [microSpur, mem_append] at hs
     rcases hs with hs | hs
